@@ -197,3 +197,21 @@ Print Assumptions C07_stmtWalker_noskip_is_stmt_nodes.
 Theorem C07_unlambda_pos_valid : forall f, wf f = true -> forall w, In w (warnings (run_unlambda f)) -> In (w_pos w) (token_starts f).
 Proof. exact (fun f W w H => cause_pos_valid f w W (unlambda_cause f w H)). Qed.
 Print Assumptions C07_unlambda_pos_valid.
+
+(* ---------- the comment walkers (Comment, LocalComment, DocComment) ---------- *)
+
+Theorem C07_commentWalker_partition : forall cs, concat (walk_comments cs) = concat (c_groups cs).
+Proof. exact (walk_comments_partition). Qed.
+Print Assumptions C07_commentWalker_partition.
+
+Theorem C07_commentWalker_groups_uniform : forall cs g, In g (walk_comments cs) -> group_uniform g.
+Proof. exact (walk_comments_uniform). Qed.
+Print Assumptions C07_commentWalker_groups_uniform.
+
+Theorem C07_localCommentWalker_shows_file_comments : forall enter f cs g c, In g (walk_local_comments enter f cs) -> In c g -> In c (concat (c_groups cs)) /\ group_uniform g.
+Proof. exact (walk_local_comments_members). Qed.
+Print Assumptions C07_localCommentWalker_shows_file_comments.
+
+Theorem C07_docCommentWalker_shows_doc_fields : forall f cs g, In g (walk_doc_comments f cs) -> exists n, In n (all_nodes f) /\ In (tag_code n, npos n, g) (c_docs cs).
+Proof. exact (walk_doc_comments_docs). Qed.
+Print Assumptions C07_docCommentWalker_shows_doc_fields.
